@@ -311,6 +311,9 @@ def rule_shared(ctx):
     from . import C05, C10
     from . import _workers as W
     C05.rule_R1(R.Retag(ctx, "C05."))
+    # both directions of a connection reach the worker that holds its flow (otherwise the other worker accumulates an unparsable mirror flow)
+    from . import C18
+    C18.rule_R2(R.Retag(ctx, "C18."))
     P = ctx.program
     for crate, fam in (("huginn_net_http", "http"), ("huginn_net_tls", "tls")):
         wl = [b for b in P.method("WorkerPool", "worker_loop") if b.crate == crate]
